@@ -292,7 +292,64 @@ def inst_slot_siblings(cx, iid):
                 inst.violation(r.path, "channel of slot", "the delivery test does not consult the channel stored for the delivered slot", at=r.span_at(loc))
 
 
+def inst_channel_markers(cx, iid):
+    """channel base markers: the marker of the *old* base is cleared (computed before the base is
+    overwritten), the new marker is set at the new id, and the base is unset exactly when the window
+    passes its marker; nobody else writes a channel's base"""
+    R = cx.R
+    with cx.instance(iid, "T2 order + T3 + T7", "set_channel_base_id clears the old base's marker before overwriting the base, marks the new id; try_unset clears the base named by the marker; no other writer", floor=5) as inst:
+        b = R.body(PR + "set_channel_base_id")
+        ch = "arg1.channels[cast<usize>(arg2)].base_id"
+        mk = lambda e: "arg1.channel_base_markers[cast<usize>(bitand(%s))]" % e
+        ws = [(l, ps, show(b.rvalue_expr(node["rv"]))) for l, node, ps in b.field_writes(r"arg1\.(channel_base_markers\[.*\]|channels\[.*\]\.base_id)")]
+        want = {
+            (mk(ch + "@Some.0,arg1.receive_window_mask"), "None{}"): "clear old marker",
+            (mk("arg1.receive_window_mask," + ch + "@Some.0"), "None{}"): "clear old marker",
+            (mk("arg1.receive_window_mask,arg3"), "Some{arg2}"): "set new marker",
+            (mk("arg3,arg1.receive_window_mask"), "Some{arg2}"): "set new marker",
+            (ch, "Some{arg3}"): "set base",
+        }
+        roles = {}
+        for l, ps, v in ws:
+            r = want.get((ps, v))
+            inst.site(b, l, "%s = %s (%s)" % (ps[-60:], v, r))
+            if r is None:
+                inst.violation(b.path, "marker/base write", "set_channel_base_id writes `%s = %s`" % (ps[:90], v), at=b.span_at(l))
+            else:
+                roles.setdefault(r, []).append(l)
+        if sorted(roles) != ["clear old marker", "set base", "set new marker"]:
+            inst.violation(b.path, "marker discipline", "set_channel_base_id must clear the old marker, set the new marker and set the base (found %s)" % sorted(roles))
+        else:
+            for w in roles["set base"]:
+                for c in roles["clear old marker"]:
+                    if _reaches(b, w.bb, {c.bb}) and not (w.bb == c.bb and w.idx > c.idx):
+                        inst.violation(b.path, "base overwritten before old marker cleared", "the channel base is overwritten before the marker of the previous base is cleared: a stale marker survives and later unsets the base of a channel that is still ahead", at=b.span_at(w))
+            cx.guard(inst, b, [(c, "clear old marker") for c in roles["clear old marker"]], [[r"is\(arg1\.channels\[cast<usize>\(arg2\)\]\.base_id,Some\)"]], construct="old marker cleared without a base")
+            for nm in ("set base", "set new marker"):
+                cx.followed_by(inst, b, [(Loc(0, -1), "entry")], roles[nm], nm + " skipped", nm)
+        t = R.body(PR + "try_unset_channel_base_id")
+        tk = "Option::take(arg1.channel_base_markers[cast<usize>(bitand(arg1.receive_window_mask,arg2))])"
+        tws = [(l, ps, show(t.rvalue_expr(node["rv"]))) for l, node, ps in t.field_writes(r"arg1\.channels\[.*\]\.base_id")]
+        for l, ps, v in tws:
+            inst.site(t, l, "try_unset: %s = %s" % (ps[-50:], v))
+            if (ps, v) != ("arg1.channels[cast<usize>(%s@Some.0)].base_id" % tk, "None{}"):
+                inst.violation(t.path, "unset base", "try_unset_channel_base_id writes `%s = %s`" % (ps[:100], v), at=t.span_at(l))
+        if len(tws) != 1:
+            inst.violation(t.path, "unset base", "expected exactly one base unset in try_unset_channel_base_id")
+        for ob in R.all_bodies():
+            if "packet_receiver::" in ob.path and ob.path not in (b.path, t.path) and not ob.path.endswith("::new"):
+                for l, node, ps in ob.field_writes(r".*channels\[.*\]\.base_id|.*channel_base_markers\[.*\]"):
+                    inst.violation(ob.path, "unlisted writer of channel base/marker", "`%s` is written outside set/try_unset_channel_base_id" % ps[:80], at=ob.span_at(l))
+        # advance_window calls try_unset for every id it passes (id+1 .. new_base)
+        aw = R.body(PR + "advance_window")
+        cs = call_sites(aw, "PacketReceiver::try_unset_channel_base_id")
+        inst.site(aw, None, "advance_window -> try_unset_channel_base_id: %d call(s)" % len(cs))
+        if len(cs) != 1 or not any(cs[0][0].bb in L["body"] for L in aw.loops()):
+            inst.violation(aw.path, "try_unset in advance loop", "advance_window does not unset channel bases for every id it passes")
+
+
 def run(cx):
+    inst_channel_markers(cx, "C01.i")
     inst_slot_siblings(cx, "C01.h")
     inst_frame_window(cx, "C01.a")
     inst_receive_window(cx, "C01.b")
